@@ -233,6 +233,39 @@ def descT (st : St) : TVal → Json
 
 def descTick (st : St) (t : Tick) : Json := .obj [("tag", .str t.tag), ("vals", .arr (t.vals.map (descT st)))]
 
+/-! ### result accessors (`_get_result` overrides)
+
+A chain `item;item;…` (innermost first; empty = the base class): `list`, `obj:<key cps>:<tag key cps>:<json>`,
+`field:<key cps>:<field cps>`, `dyn:<key cps>:<dyn key cps>`, `size`, `total`, `first`, `default:<json>`. -/
+
+def accItemOf (s : String) : Option Accessor :=
+  match s.splitOn ":" with
+  | ["list"] => some .wrapList
+  | ["size"] => some .size
+  | ["total"] => some .total
+  | ["first"] => some .first
+  | ["obj", k, tk, j] =>
+    match strOf k, strOf tk, jsonOf j with
+    | some key, some tagKey, some tag => some (.wrapObj key tagKey tag)
+    | _, _, _ => none
+  | ["field", k, f] =>
+    match strOf k, strOf f with
+    | some key, some field => some (.withField key field)
+    | _, _ => none
+  | ["dyn", k, d] =>
+    match strOf k, strOf d with
+    | some key, some dyn => some (.withDyn key dyn)
+    | _, _ => none
+  | ["default", j] => (jsonOf j).map .orDefault
+  | _ => none
+
+def accOf (s : String) : Option Accessor :=
+  (listOf ";" accItemOf s).map (fun items => items.foldl (fun inner outer => .comp outer inner) .raw)
+
+def showOpt : Option Json → Json
+  | some j => j
+  | none => .str "<no event>"
+
 /-! ### the step function -/
 
 def registryOf (st : St) (s : String) : Option (List (String × Shape)) :=
@@ -319,6 +352,32 @@ def step (st : St) (line : String) : St × String :=
     match jsonOf j with
     | some v => (st, showRes (descTick st) (decodeTick st.cenv st.xenv tickSpecs resultSpecs v))
     | none => (st, "bad-op")
+  | ["pub", acc, cid, t, d, r] =>
+    match accOf acc, instOf st cid t d r with
+    | some a, some e => (st, showJson (publicResult a e))
+    | _, _ => (st, "bad-op")
+  | ["pubrt1", acc, cid, t, d, r] =>
+    match accOf acc, instOf st cid t d r with
+    | some a, some e =>
+      (st, showRes (fun v => showOpt (pyPublic a v)) (deserializeValue st.cenv st.xenv (serializeValue (.model e))))
+    | _, _ => (st, "bad-op")
+  | ["pubrt2", acc, cid, t, d, r, qn, reg] =>
+    match accOf acc, instOf st cid t d r, parseBool? qn, listOf "," (fun c => dget st.classes c) reg with
+    | some a, some e, some b, some rs =>
+      (st, showRes (publicResult a) (loadEvent st.cenv st.xenv (metaFromEvent e b) rs))
+    | _, _, _, _ => (st, "bad-op")
+  | ["pubrt3", acc, cid, t, d, r] =>
+    match accOf acc, instOf st cid t d r with
+    | some a, some e =>
+      match findSpec tickSpecs "publish_event" with
+      | some spec =>
+        match encodeTick resultSpecs spec { tag := "publish_event", vals := [.s (.event e)] } with
+        | .ok j =>
+          (st, showRes (fun t' => .arr (t'.vals.map (fun v => showOpt (slotPublic a v))))
+            (decodeTick st.cenv st.xenv tickSpecs resultSpecs j))
+        | .error err => (st, "err " ++ showErr err)
+      | none => (st, "err bad-tag")
+    | _, _ => (st, "bad-op")
   | ["wf", cid, t, d, r] =>
     match instOf st cid t d r with
     | some e =>
